@@ -325,9 +325,12 @@ class _DataApi(_Api):
         W = ip.st.ghost['W']
         if not self.accepted(a):
             return [Raises(TypeError, when=BoolVal(True), iff=True, ensures=self.nothing(ip, old), modifies=[])]
-        p = self.payload(ip, a)
-        return write_raises(ip, W, old) + [
-            Raises(errors.FrameBuildError, when=p.n >= 2 ** 62, iff=False, modifies=[], ensures=self.nothing(ip, old))]
+        out = write_raises(ip, W, old) + [
+            Raises(errors.FrameBuildError, when=None, iff=False, modifies=[], ensures=self.nothing(ip, old))]
+        for r in out:
+            # a refused / failed compressed send may already have advanced the deflater
+            r.modifies = [l for l in self.modifies(ip, a) if l[2] == '_compressobj']
+        return out
 
     def modifies(self, ip, a):
         W = ip.st.ghost['W']
@@ -354,6 +357,8 @@ class _DataApi(_Api):
         use = And(BoolVal(bool(a.compress)), negotiated)
         log = st.ghost.get('deflate_log', [])[len(old.ghost.get('deflate_log', [])):]
         out.append(('rsv1-iff-compression-negotiated-and-requested', (d.rsv1 == 1) == use, ('C03', 'C06')))
+        if ip.reading == 'call':
+            return out + [(n, f) for n, f in payload_facts(w[0], d, self.opcode, d.rsv1, p) if n not in ('rsv1', 'declared-length', 'payload-is-xor-with-key-in-frame')]
         out.append(('deflater-used-iff-rsv1', BoolVal(len(log) <= 1)))
         if len(log) == 1:
             zkey, src, deflated, locked = log[0]
@@ -414,9 +419,12 @@ class SendJson(_Api):
         both = bool(a.kwargs) and a._obj is not Ellipsis
         if both:
             return [Raises(ValueError, when=BoolVal(True), iff=True, ensures=self.nothing(ip, old), modifies=[])]
-        return [Raises(TypeError, when=None, ensures=self.nothing(ip, old), modifies=[]),
-                Raises(ValueError, when=None, ensures=self.nothing(ip, old), modifies=[])] + write_raises(ip, W, old) + \
+        out = [Raises(TypeError, when=None, ensures=self.nothing(ip, old), modifies=[]),
+               Raises(ValueError, when=None, ensures=self.nothing(ip, old), modifies=[])] + write_raises(ip, W, old) + \
             [Raises(errors.FrameBuildError, when=None, ensures=self.nothing(ip, old), modifies=[])]
+        for r in out[2:]:
+            r.modifies = [l for l in self.modifies(ip, a) if l[2] == '_compressobj']
+        return out
 
     def ensures(self, ip, a, old, res):
         w = wire_since(ip, old)
